@@ -1,0 +1,129 @@
+//go:build verif
+
+package runtime
+
+// Machine-checked contracts for package runtime (read by /verif/znvc; comment-only, compiled to nothing).
+//
+// Scope is verified against an abstract view: the live symbols are locals[0..localCount) with their values;
+// depths are non-decreasing and bounded by currentDepth (C06).
+
+//@ pred scopeWF(sp *Scope) =
+//@   sp != nil && 0 <= sp.localCount && sp.localCount <= len(sp.locals) &&
+//@   sp.localCount <= len(sp.values) && 0 <= sp.currentDepth &&
+//@   (forall i int :: 0 <= i && i < sp.localCount ==>
+//@        0 <= sp.locals[i].depth && sp.locals[i].depth <= sp.currentDepth) &&
+//@   (forall i, j int :: 0 <= i && i < j && j < sp.localCount ==>
+//@        sp.locals[i].depth <= sp.locals[j].depth)
+
+// live prefix [0,k) of the symbol table is what it was on entry
+//@ pred sameBelow(sp *Scope, k int) =
+//@   forall i int :: 0 <= i && i < k ==>
+//@        sp.locals[i] == old(sp.locals[i]) && sp.values[i] == old(sp.values[i])
+
+// i is the innermost live declaration of name (or -1 if there is none)
+//@ pred isLast(sp *Scope, name string, i int) =
+//@   (i == 0 - 1 && (forall j int :: 0 <= j && j < sp.localCount ==> sp.locals[j].name != name)) ||
+//@   (0 <= i && i < sp.localCount && sp.locals[i].name == name &&
+//@    (forall j int :: i < j && j < sp.localCount ==> sp.locals[j].name != name))
+
+//@ pred isRuntimeError(e error, code int) =
+//@   is(e, *zerr.RuntimeError) && as(e, *zerr.RuntimeError) != nil && as(e, *zerr.RuntimeError).Code == code
+
+//@ method (*Scope).BeginScope
+//@   requires scopeWF(sp) && sp.currentDepth < 9223372036854775807
+//@   modifies sp.currentDepth
+//@   ensures  scopeWF(sp) && sp.currentDepth == old(sp.currentDepth)+1
+//@   ensures  sp.localCount == old(sp.localCount) && sameBelow(sp, sp.localCount)
+
+//@ method (*Scope).EndScope
+//@   requires scopeWF(sp) && sp.currentDepth >= 1
+//@   modifies sp.currentDepth, sp.localCount
+//@   ensures  scopeWF(sp) && sp.currentDepth == old(sp.currentDepth)-1
+//@   ensures  sp.localCount <= old(sp.localCount) && sameBelow(sp, sp.localCount)
+//@   ensures  [pops-all-deeper] sp.localCount == 0 || sp.locals[sp.localCount-1].depth <= sp.currentDepth
+//@   ensures  [pops-only-deeper] forall i int :: sp.localCount <= i && i < old(sp.localCount) ==> old(sp.locals[i].depth) > sp.currentDepth
+//@   loop 1 invariant 0 <= sp.localCount && sp.localCount <= old(sp.localCount)
+//@   loop 1 invariant sp.currentDepth == old(sp.currentDepth) - 1 && sp.locals == old(sp.locals) && sp.values == old(sp.values)
+//@   loop 1 invariant forall i int :: sp.localCount <= i && i < old(sp.localCount) ==> sp.locals[i].depth > sp.currentDepth
+//@   loop 1 decreases sp.localCount
+
+//@ method (*Scope).getSymbolID
+//@   requires scopeWF(sp)
+//@   pure
+//@   ensures  isLast(sp, name, result)
+//@   loop 1 invariant 0 - 1 <= i && i < sp.localCount
+//@   loop 1 invariant forall j int :: i < j && j < sp.localCount ==> sp.locals[j].name != name
+//@   loop 1 decreases i + 1
+
+//@ method (*Scope).GetValue
+//@   requires scopeWF(sp)
+//@   pure
+//@   ensures  exists i int :: isLast(sp, name, i) && (i == 0 - 1 ? result == nil : result == sp.values[i])
+
+//@ method (*Scope).SetValue
+//@   requires scopeWF(sp)
+//@   modifies mem(sp.values)
+//@   ensures  scopeWF(sp) && sp.localCount == old(sp.localCount)
+//@   ensures  [not-found] old(isLast(sp, name, 0 - 1)) ==> isRuntimeError(result, 42) && sameBelow(sp, sp.localCount)
+//@   ensures  [const-rejected] forall i int :: old(isLast(sp, name, i)) && i >= 0 && old(sp.locals[i].isConst) ==>
+//@               isRuntimeError(result, 44) && sameBelow(sp, sp.localCount)
+//@   ensures  [assigned] forall i int :: old(isLast(sp, name, i)) && i >= 0 && !old(sp.locals[i].isConst) ==>
+//@               result == nil && sp.values[i] == value &&
+//@               (forall j int :: 0 <= j && j < sp.localCount && j != i ==> sp.values[j] == old(sp.values[j]))
+//@   loop 1 invariant 0 - 1 <= i && i < sp.localCount && sameBelow(sp, sp.localCount)
+//@   loop 1 invariant forall j int :: i < j && j < sp.localCount ==> sp.locals[j].name != name
+//@   loop 1 decreases i + 1
+
+// a live symbol called name exists at the current depth
+//@ pred dupAtDepth(sp *Scope, name string) =
+//@   exists j int :: 0 <= j && j < sp.localCount && sp.locals[j].name == name && sp.locals[j].depth == sp.currentDepth
+
+//@ method (*Scope).declareValue
+//@   requires scopeWF(sp) && sp.localCount < 140737488355328
+//@   modifies sp.locals, sp.values, sp.localCount, mem(sp.locals), mem(sp.values)
+//@   ensures  scopeWF(sp) && sp.currentDepth == old(sp.currentDepth) && sameBelow(sp, old(sp.localCount))
+//@   ensures  [redeclared] old(dupAtDepth(sp, name)) ==> isRuntimeError(result, 43) && sp.localCount == old(sp.localCount)
+//@   ensures  [declared] !old(dupAtDepth(sp, name)) ==> result == nil && sp.localCount == old(sp.localCount)+1 &&
+//@               sp.locals[old(sp.localCount)].name == name && sp.locals[old(sp.localCount)].depth == sp.currentDepth &&
+//@               sp.locals[old(sp.localCount)].isConst == isConst && sp.values[old(sp.localCount)] == value
+//@   loop 1 invariant 0 - 1 <= i && i < sp.localCount
+//@   loop 1 invariant forall j int :: i < j && j < sp.localCount ==> sp.locals[j].depth >= sp.currentDepth && !(sp.locals[j].name == name && sp.locals[j].depth == sp.currentDepth)
+//@   loop 1 decreases i + 1
+
+//@ method (*Scope).DeclareValue
+//@   requires scopeWF(sp) && sp.localCount < 140737488355328
+//@   modifies sp.locals, sp.values, sp.localCount, mem(sp.locals), mem(sp.values)
+//@   ensures  scopeWF(sp) && sp.currentDepth == old(sp.currentDepth) && sameBelow(sp, old(sp.localCount))
+//@   ensures  [redeclared] old(dupAtDepth(sp, name)) ==> isRuntimeError(result, 43) && sp.localCount == old(sp.localCount)
+//@   ensures  [declared] !old(dupAtDepth(sp, name)) ==> result == nil && sp.localCount == old(sp.localCount)+1 &&
+//@               sp.locals[old(sp.localCount)].name == name && sp.locals[old(sp.localCount)].depth == sp.currentDepth &&
+//@               !sp.locals[old(sp.localCount)].isConst && sp.values[old(sp.localCount)] == value
+
+//@ method (*Scope).DeclareConstValue
+//@   requires scopeWF(sp) && sp.localCount < 140737488355328
+//@   modifies sp.locals, sp.values, sp.localCount, mem(sp.locals), mem(sp.values)
+//@   ensures  scopeWF(sp) && sp.currentDepth == old(sp.currentDepth) && sameBelow(sp, old(sp.localCount))
+//@   ensures  [redeclared] old(dupAtDepth(sp, name)) ==> isRuntimeError(result, 43) && sp.localCount == old(sp.localCount)
+//@   ensures  [declared] !old(dupAtDepth(sp, name)) ==> result == nil && sp.localCount == old(sp.localCount)+1 &&
+//@               sp.locals[old(sp.localCount)].name == name && sp.locals[old(sp.localCount)].depth == sp.currentDepth &&
+//@               sp.locals[old(sp.localCount)].isConst && sp.values[old(sp.localCount)] == value
+
+//@ method (*Scope).DeclareExternalValue
+//@   requires scopeWF(sp) && sp.localCount < 140737488355328 && sp.externalRefs != nil
+//@   modifies sp.locals, sp.values, sp.localCount, mem(sp.locals), mem(sp.values), map(sp.externalRefs)
+//@   ensures  scopeWF(sp) && sp.currentDepth == old(sp.currentDepth) && sameBelow(sp, old(sp.localCount))
+//@   ensures  [redeclared] old(dupAtDepth(sp, name)) ==> isRuntimeError(result, 43) && sp.localCount == old(sp.localCount)
+//@   ensures  [declared] !old(dupAtDepth(sp, name)) ==> result == nil && sp.localCount == old(sp.localCount)+1 &&
+//@               sp.locals[old(sp.localCount)].name == name && sp.locals[old(sp.localCount)].depth == sp.currentDepth &&
+//@               sp.locals[old(sp.localCount)].isConst && sp.values[old(sp.localCount)] == value &&
+//@               has(sp.externalRefs, old(sp.localCount)) && sp.externalRefs[old(sp.localCount)] == moduleID
+
+//@ method (*Scope).GetValueWithModuleID
+//@   requires scopeWF(sp)
+//@   pure
+//@   ensures  exists i int :: isLast(sp, name, i) && (i == 0 - 1 ? r0 == nil && r1 == 0 - 1 :
+//@               r0 == sp.values[i] && (has(sp.externalRefs, i) ? r1 == sp.externalRefs[i] : r1 == 0 - 1))
+
+//@ func NewScope
+//@   modifies nothing
+//@   ensures  fresh(result) && scopeWF(result) && result.localCount == 0 && result.currentDepth == 0 && result.externalRefs != nil
